@@ -45,12 +45,13 @@ prop("C22",
      residual="printing of A1/R1C1 addresses (format!) and sheet-name quoting read back by the lexer are string code outside Verus' reach")
 
 prop("C11",
-     units=["colcodec", "fmtpanic", "lexpanic", "refparse", "fmtlex", "cursor", "f4", "dates", "argidx", "lexerr"],
+     units=["colcodec", "fmtpanic", "lexpanic", "refparse", "fmtlex", "cursor", "f4", "dates", "argidx", "lexerr", "numparse"],
      scans=["chrono-panicking-ops"],
      level="proof",
      claim="no panic (overflow, index, unwrap, division) in the listed text-consuming functions for ANY input string",
      assumptions=["std string functions do not panic on valid &str (their vstd/assumed specs)"],
-     residual="the recursive-descent parser, format_number and set_user_input as wholes are not under contract")
+     residual="the recursive-descent parser, format_number and set_user_input as wholes are not under contract; of the typed-value reader parse_formatted_number only the "
+              "character scanner parse_number (unit numparse, up to the final f64 parse) is")
 
 
 prop("C03",
@@ -161,14 +162,21 @@ prop("C34",
 
 
 prop("C23",
-     units=["errnames", "lexerr"],
+     units=["errnames", "lexerr", "fntables", "errprint"],
      level="proof",
-     claim="for each of the 12 error kinds the name printed by Display (the English and xlsx form) is parsed back to the same error by "
+     claim="for EVERY built-in function (all rows, whatever their number) the field whose content Function::to_localized_name prints is, in Functions::lookup's first-match "
+           "if-chain (the expansion of impl_function_lookup!), mapped back to that same function: lookup_variant(name_field(v)) == v, decided by Verus's `by (compute)` over "
+           "the two tables re-extracted on every run; for each of the 12 error kinds the name printed by Display (the English and xlsx form) is parsed back to the same error by "
            "get_error_by_english_name, names are pairwise distinct, and nothing else is accepted; in EVERY language the formula lexer answers an error kind only where that "
            "kind's localized name stands in the text, and the token covers exactly the characters of the name (consume_error)",
      assumptions=["R6: write!(fmt, LIT) arms of Display::fmt are read as the literal they write (formatter plumbing dropped)",
-                  "vstd's model of str equality and string literals"],
-     residual="localized error names and the 495x5 function-name table are run-time decoded data (language.bin), not a code contract; Functions::lookup/to_localized_name macro tables")
+                  "vstd's model of str equality and string literals",
+                  "D7: the macro rows and match arms are reduced to (field index, variant index) pairs by the weaver (identifier positions in struct Functions / enum Function)",
+                  "data (language.bin): within one language the function-name fields hold pairwise different upper-case names, so `self.<field> == key` is true for exactly the field the "
+                  "key was printed from — checked exhaustively (5 languages x all functions) only by the replay driver fnnames in the thorough tier, which is a complete enumeration "
+                  "of that finite table but is testing, not proof"],
+     residual="the CONTENT of the name tables (localized error and function names, run-time decoded from language.bin) and the xlsx export names (string literals matched against "
+              "the English table's content) are data, not a code contract")
 
 
 prop("C01",
@@ -206,16 +214,17 @@ prop("C17",
 
 
 prop("C16",
-     units=["movearms", "cutcf", "refshift"],
+     units=["movearms", "cutcf", "refshift", "separators", "errprint"],
      level="proof",
-     claim="cut: in a moved formula a reference whose target lies in the cut area is displaced by the move and a range only if BOTH corners lie inside it, "
+     claim="the moved formula is printed with the separators (arguments, LAMBDA parameters, array rows and elements) and the error names that the parser of the active "
+           "locale / language reads back as the same tokens (units separators, errprint); cut: in a moved formula a reference whose target lies in the cut area is displaced by the move and a range only if BOTH corners lie inside it, "
            "everything else keeps its coordinates (and is qualified with the source sheet when the formula changes sheet); conditional-format ranges follow the same "
            "both-corners rule; copy: the copied formula is parsed in the source cell's context and printed in the target cell's context, so relative references shift by the "
            "paste offset and, by the contract of stringify_reference, print #REF! when they leave the grid",
      assumptions=["stringify_reference prints a function of its arguments (its own contract is unit refshift); parser.parse / to_localized_string are stubs whose only "
                   "contracted aspect is the cell context they are given", "coordinates within +-2^22"],
      residual="pasted contents/styles/links/values (clipboard.rs), external references into the cut area (get_external_formula_updates_for_cut string rewriting), "
-              "the non-reference arms of to_string_moved")
+              "the other non-reference arms of to_string_moved (operators, strings, numbers, booleans), the use of the chosen separator inside move_function's format! loop")
 
 
 prop("C31",
@@ -269,9 +278,14 @@ prop("C32",
 
 
 prop("C10",
-     units=["langframe"],
+     units=["langframe", "lexerr", "fntables", "separators", "errprint"],
      level="proof",
-     claim="slice (frame conditions): Model::set_language changes NOTHING in the workbook — no stored formula, defined name, cell value or setting — for any "
+     claim="slices. Separators: at every site where the display printer (stringify) or the cut-and-paste printer (to_string_moved) chooses an argument / LAMBDA / array-element "
+           "/ array-row separator, the chosen character is lexed by the real single-character arms of Lexer::next_token, in the same locale, as exactly the token "
+           "Parser::get_argument_separator_token / get_column_separator_token asks for — for every locale, whatever its decimal symbol; the three arms that print an error "
+           "literal return the localized name of the language they are given (errprint). Translation tables: in every language the lexer reads an error kind exactly where that kind's localized name stands and consumes exactly its characters "
+           "(lexerr), and the function-name printer and the function-name lookup are the same relation (fntables), so a name shown in a language is read back as the "
+           "function / error it was printed from. Frame conditions: Model::set_language changes NOTHING in the workbook — no stored formula, defined name, cell value or setting — for any "
            "language id (it only re-points the parser and the model at the language table); Model::set_locale and set_timezone write, in the workbook, only "
            "their own setting, and stored formulas and defined names are the same before and after; a rejected id leaves the whole model untouched",
      assumptions=["Model::evaluate writes values only — never stored formulas, defined names or settings (assumed stub: the evaluator is not under contract)",
